@@ -256,6 +256,20 @@ func emit19(p *interpgen.Program) {
 	if strings.Join(rec.Trace, " ") != strings.Join(scr.Trace, " ") || rec.Hash != scr.Hash {
 		c.Violate("Debugger/scribbling-changes-callbacks-or-snapshots", "traces or snapshots differ between a passive and a scribbling debugger", p)
 	}
+	// what every callback is SHOWN (the whole State, the data argument) is the same whether or not the debugger wrote
+	// into what it was shown before (a snapshot or a copy handed out twice shows the first callback's scribbling)
+	if len(rec.Shown) == len(scr.Shown) {
+		for i := range rec.Shown {
+			if rec.Shown[i] != scr.Shown[i] {
+				ev := "?"
+				if i < len(rec.Trace) {
+					ev = rec.Trace[i]
+				}
+				c.Violate("Debugger/what-a-callback-is-shown-depends-on-earlier-scribbling", fmt.Sprintf("callback %d (%s) is shown something else to a debugger that overwrote what the earlier callbacks were shown", i, ev), p)
+				break
+			}
+		}
+	}
 	if plain != dri.Obs || plainMsg != dri.Err {
 		c.Violate("Debugger/scribbling-changes-verdict-or-error", fmt.Sprintf("(drifting) %s %q vs %s %q", plain, plainMsg, dri.Obs, dri.Err), p)
 	}
